@@ -120,7 +120,7 @@ def handle (j : Json) : Except String Verdict := do
           if iarrs != marrs then phys := false
           -- C10: exactly the rows of this batch, in order
           let interps := st.batch.map (interpRow ext fields)
-          let malformed := interps.any isMalformed
+          let malformed := interps.any isMalformed || st.batch.any containsMalformed
           if !malformed && !fsb0 then
             let rowsOk := interps.all (·.isOk)
             let colsOk := idec.length == fields.length && (List.range fields.length).all fun col =>
